@@ -637,6 +637,9 @@ func propSpecs() map[string]*PropSpec {
 			fm(c20, "H_C20_nest", o, i, fmt.Sprintf("nesting matrix: container %d inside container %d (0 quote, 1 bullet, 2 ordered) x 3 contents with blank lines", i, o), "quick")
 		}
 	}
+	for o, nm := range []string{"a block quote", "a bullet item", "an ordered item", "a block quote inside a bullet item"} {
+		fm(c20, "H_C20_span", int64(o), 0, "paragraph inside "+nm+" with one of eight inline constructs (emphasis, strong, nested, link text, code span, image, raw tag) continuing on the second line", "quick")
+	}
 	for o, nm := range []string{"a bullet list", "an ordered list", "a bullet list inside a block quote", "an ordered list inside a block quote"} {
 		fm(c20, "H_C20_tight", int64(o), 0, "tight two-item list ("+nm+") whose first item holds a paragraph directly followed by one of eight blocks (nested lists, quote, fenced code, code + paragraph, heading, thematic break)", "quick")
 	}
